@@ -34,4 +34,6 @@ def known (_ : Case) : List String := []
 
 def check : Check Case Obs := { model := model, spec := spec, wf := wf, known := known }
 
+def handle := runCheck check
+
 end Attrs.C03
